@@ -518,6 +518,22 @@ theorem C27_handed_out_exact (h : Hier) (hw : h.wf) (s : Site) (c : LoadCtx) (cl
 example : normal .attrGet ⟨true, true, true, true, true, true, false, false, false, false, false, true⟩ = true ∧
     stillSeed .attrGet ⟨true, true, true, true, true, true, false, false, false, false, false, true⟩ = false := by decide
 
+/-- **Objects built from a full row have the stored class** (select over an entity, E[pk] / E.get on an object not yet in the session,
+    select_by_sql, one-to-many collections, `_load_` of a seed): with the way `_fetch_objects` and `_parse_row_` pick the class in the CURRENT
+    source, a row written by class `r` and fetched for a query over `e ⊇ r` becomes an object of class exactly `r` -/
+theorem C27_full_row_exact (h : Hier) (hw : h.wf) (hd : h.distinct) (e r : Nat) (hr : r < h.n) (hs : IsSub h r e)
+    (hasDiscr : Bool) (hnd : hasDiscr = false → h.subclasses e = []) :
+    rowClass h e hasDiscr (h.discr r) = some r := by
+  have h1 : fetchObjectsUsesParsedClass = true := by decide
+  have h2 : parseRowUsesCode2cls = true := by decide
+  unfold rowClass
+  simp only [h1, h2, if_true]
+  cases hasDiscr with
+  | true => simp only [if_true]; exact C27_code2cls h hd r hr
+  | false =>
+    simp only [Bool.false_eq_true, if_false]
+    rw [C27_no_subclasses_exact h hw e r hr hs (hnd rfl)]
+
 end SeedLoad
 
 end PonyVerif.Props.C27
